@@ -416,6 +416,201 @@ proof fn lemma_swap_distinct<C: Cursor>(cs: Seq<C>, x: int, y: int)
     }
 }
 
+// ================================================================ from "every child sits at a cut" to a rest state
+// A cut: child c sits at position c.pos(), everything before it is `low`, nothing from it on is.
+spec fn at_cut<C: Cursor>(c: C, low: spec_fn(Ent) -> bool) -> bool {
+    &&& c.wf() && 0 <= c.pos() <= c.ents().len()
+    &&& forall|i: int| 0 <= i < c.pos() ==> low(#[trigger] c.ents()[i])
+    &&& forall|i: int| c.pos() <= i < c.ents().len() ==> !low(#[trigger] c.ents()[i])
+}
+// `low` is closed downwards in the entry order
+spec fn down_closed(low: spec_fn(Ent) -> bool) -> bool {
+    forall|x: Ent, y: Ent| #[trigger] low(y) && !kt_lt(y.key, y.ts, x.key, x.ts) ==> #[trigger] low(x)
+}
+spec fn key_of_child<C: Cursor>(c: C) -> OK { key_at(c.ents(), c.pos()) }
+
+// Forward: all children at one cut + heap  ==>  every child sits at its first entry >= the root's entry
+proof fn lemma_heap_top_fwd<C: Cursor>(cs: Seq<C>, low: spec_fn(Ent) -> bool)
+    requires
+        cs.len() >= 1, all_sorted(cs), down_closed(low),
+        allq(cs, |c: C| at_cut(c, low)),
+        forall|i: int| 0 <= i < cs.len() ==> (#[trigger] cs[i]).key_spec() == key_of_child(cs[i]),
+        heap_from(cs, Comparator::Forward, 0),
+    ensures
+        match key_of_child(cs[0]) {
+            Some(e) => allq(cs, |c: C| c.pos() == clt(c.ents(), e.0, e.1)) && !low(cs[0].ents()[cs[0].pos()]),
+            None => allq(cs, |c: C| c.pos() == c.ents().len()),
+        },
+{
+    let q = |c: C| at_cut(c, low);
+    assert(q(cs[0]));
+    match key_of_child(cs[0]) {
+        Some(e) => {
+            let r = cs[0]; let er = r.ents()[r.pos()];
+            assert(!low(er));
+            assert forall|i: int| 0 <= i < cs.len() implies (#[trigger] cs[i]).pos() == clt(cs[i].ents(), e.0, e.1) by {
+                let c = cs[i]; let s = c.ents();
+                assert(q(c));
+                lemma_root_least(cs, Comparator::Forward, i);
+                assert forall|x: int| 0 <= x < c.pos() implies kt_lt(#[trigger] s[x].key, s[x].ts, e.0, e.1) by {
+                    // s[x] is low, the root's entry is not: were s[x] not below it, down-closure would make it low
+                    if !kt_lt(s[x].key, s[x].ts, e.0, e.1) { assert(low(s[x]) && !kt_lt(s[x].key, s[x].ts, er.key, er.ts)); assert(low(er)); }
+                }
+                assert forall|x: int| c.pos() <= x < s.len() implies !kt_lt(#[trigger] s[x].key, s[x].ts, e.0, e.1) by {
+                    // the child's current entry is not below the root's, and s[x] is not below the child's current entry
+                    let cur = s[c.pos()];
+                    assert(!kt_lt(cur.key, cur.ts, e.0, e.1));
+                    if x > c.pos() && kt_lt(s[x].key, s[x].ts, e.0, e.1) {
+                        assert(kt_lt(cur.key, cur.ts, s[x].key, s[x].ts));
+                        lemma_kt_trans(cur.key, cur.ts, s[x].key, s[x].ts, e.0, e.1);
+                    }
+                }
+                lemma_clt_unique(s, e.0, e.1, c.pos());
+            }
+        }
+        None => {
+            assert forall|i: int| 0 <= i < cs.len() implies (#[trigger] cs[i]).pos() == cs[i].ents().len() by {
+                assert(q(cs[i]));
+                lemma_root_least(cs, Comparator::Forward, i);
+            }
+        }
+    }
+}
+
+// ---------------------------------------------------------------- moving children does not change the tables
+spec fn same_tables<C: Cursor>(a: Seq<C>, b: Seq<C>) -> bool {
+    a.len() == b.len() && forall|i: int| 0 <= i < a.len() ==> (#[trigger] a[i]).ents() == b[i].ents()
+}
+proof fn lemma_same_tables<C: Cursor>(a: Seq<C>, b: Seq<C>)
+    requires same_tables(a, b), mergeable(b)
+    ensures mergeable(a), merged(a) == merged(b)
+{
+    lemma_sum_eq2(a, b, |c: C| c.ents().len() as int);
+    assert forall|k: Seq<u8>, t: u64| #[trigger] grank(a, k, t) == grank(b, k, t) by { lemma_sum_eq2(a, b, |c: C| clt(c.ents(), k, t)); }
+    assert forall|e: Ent| #[trigger] member(a, e) == member(b, e) by {
+        if member(a, e) { let (i, j) = choose|i: int, j: int| 0 <= i < a.len() && 0 <= j < a[i].ents().len() && #[trigger] a[i].ents()[j] == e; assert(b[i].ents()[j] == e); }
+        if member(b, e) { let (i, j) = choose|i: int, j: int| 0 <= i < b.len() && 0 <= j < b[i].ents().len() && #[trigger] b[i].ents()[j] == e; assert(a[i].ents()[j] == e); }
+    }
+    assert(all_sorted(a)) by { assert forall|i: int| 0 <= i < a.len() implies sorted(#[trigger] a[i].ents()) by { assert(sorted(b[i].ents())); } }
+    assert(distinct(a)) by {
+        assert forall|i1: int, j1: int, i2: int, j2: int| 0 <= i1 < a.len() && 0 <= j1 < a[i1].ents().len() && 0 <= i2 < a.len() && 0 <= j2 < a[i2].ents().len()
+            && #[trigger] a[i1].ents()[j1].key == #[trigger] a[i2].ents()[j2].key && a[i1].ents()[j1].ts == a[i2].ents()[j2].ts implies i1 == i2 && j1 == j2 by {
+            assert(b[i1].ents()[j1].key == b[i2].ents()[j2].key);
+        }
+    }
+    assert forall|r: int| 0 <= r < total(a) implies #[trigger] has_rank(a, r) by {
+        assert(has_rank(b, r));
+        let w = choose|e: Ent| member(b, e) && #[trigger] grank(b, e.key, e.ts) == r;
+        assert(member(a, w) && grank(a, w.key, w.ts) == r);
+    }
+    assert forall|r: int| 0 <= r < total(a) implies merged(a)[r] == merged(b)[r] by {
+        lemma_merged_entry(a, r); lemma_merged_entry(b, r);
+        let ea = merged(a)[r]; let eb = merged(b)[r];
+        assert(member(b, ea) && grank(b, ea.key, ea.ts) == r);
+        lemma_same_rank_same_entry(b, ea, eb);
+    }
+    assert(merged(a) =~= merged(b));
+}
+proof fn lemma_sum_eq2<C>(a: Seq<C>, b: Seq<C>, f: spec_fn(C) -> int)
+    requires a.len() == b.len(), forall|i: int| 0 <= i < a.len() ==> f(#[trigger] a[i]) == f(b[i])
+    ensures sumf(a, f) == sumf(b, f)
+    decreases a.len()
+{
+    if a.len() > 0 {
+        assert forall|i: int| 0 <= i < a.drop_last().len() implies f(#[trigger] a.drop_last()[i]) == f(b.drop_last()[i]) by { assert(a.drop_last()[i] == a[i]); assert(b.drop_last()[i] == b[i]); }
+        lemma_sum_eq2(a.drop_last(), b.drop_last(), f);
+        assert(a.last() == a[a.len() - 1] && b.last() == b[b.len() - 1]);
+    }
+}
+// rank is monotone (not necessarily strictly) in the probe
+proof fn lemma_rank_le<C: Cursor>(cs: Seq<C>, k1: Seq<u8>, t1: u64, k2: Seq<u8>, t2: u64)
+    requires all_sorted(cs), !kt_lt(k2, t2, k1, t1)
+    ensures grank(cs, k1, t1) <= grank(cs, k2, t2)
+{
+    let f = |c: C| clt(c.ents(), k1, t1);
+    let g = |c: C| clt(c.ents(), k2, t2);
+    assert forall|x: int| 0 <= x < cs.len() implies f(#[trigger] cs[x]) <= g(cs[x]) by {
+        let s = cs[x].ents();
+        lemma_clt(s, k1, t1); lemma_clt(s, k2, t2);
+        let a = clt(s, k1, t1); let b = clt(s, k2, t2);
+        if b < a {
+            assert(kt_lt(s[b].key, s[b].ts, k1, t1));
+            lemma_kt_total(k1, t1, k2, t2);
+            if kt_lt(k1, t1, k2, t2) { lemma_kt_trans(s[b].key, s[b].ts, k1, t1, k2, t2); }
+        }
+    }
+    lemma_sum_le(cs, f, g);
+}
+// Forward rest state A + every child at its lower bound for k  ==>  the merged position is the lower bound for k
+spec fn key_below(k: Seq<u8>) -> spec_fn(Ent) -> bool { |x: Ent| lex_lt(x.key, k) }
+proof fn lemma_key_below_closed(k: Seq<u8>)
+    ensures down_closed(key_below(k))
+{
+    lemma_lex_order_total();
+    assert forall|x: Ent, y: Ent| #[trigger] key_below(k)(y) && !kt_lt(y.key, y.ts, x.key, x.ts) implies #[trigger] key_below(k)(x) by {
+        // x <= y in the entry order, so x.key <= y.key < k
+        lemma_lex_total(x.key, y.key);
+        if !lex_le(x.key, y.key) { assert(lex_lt(y.key, x.key)); }
+        lemma_lex_trans(x.key, y.key, k);
+        if x.key == k { lemma_lex_antisym(k, y.key); }
+    }
+}
+proof fn lemma_seek_lower_bound<C: Cursor>(cs: Seq<C>, k: Seq<u8>)
+    requires
+        cs.len() >= 1, mergeable(cs), allq(cs, |c: C| at_cut(c, key_below(k))),
+        match key_of_child(cs[0]) {
+            Some(e) => allq(cs, |c: C| c.pos() == clt(c.ents(), e.0, e.1)) && !key_below(k)(cs[0].ents()[cs[0].pos()]),
+            None => allq(cs, |c: C| c.pos() == c.ents().len()),
+        },
+    ensures is_lower_bound(merged(cs), k, sumf(cs, |c: C| c.pos()))
+{
+    let m = merged(cs); let p = sumf(cs, |c: C| c.pos());
+    let q = |c: C| at_cut(c, key_below(k));
+    lemma_merged_sorted(cs);
+    lemma_lex_order_total();
+    assert(q(cs[0]));
+    match key_of_child(cs[0]) {
+        Some(e) => {
+            let er = cs[0].ents()[cs[0].pos()];
+            lemma_sum_eq(cs, |c: C| c.pos(), |c: C| clt(c.ents(), e.0, e.1));
+            lemma_member_rank(cs, 0, cs[0].pos());
+            assert forall|r: int| 0 <= r < p implies lex_lt(#[trigger] m[r].key, k) by {
+                lemma_merged_entry(cs, r);
+                let x = m[r];
+                let (i, j) = choose|i: int, j: int| 0 <= i < cs.len() && 0 <= j < cs[i].ents().len() && #[trigger] cs[i].ents()[j] == x;
+                assert(q(cs[i]));
+                // rank(x) = r < rank(e): x is below e, hence before the cut of its child
+                if !kt_lt(x.key, x.ts, e.0, e.1) { lemma_rank_le(cs, e.0, e.1, x.key, x.ts); }
+                lemma_clt(cs[i].ents(), e.0, e.1);
+                assert(cs[i].pos() == clt(cs[i].ents(), e.0, e.1));
+                assert(j < cs[i].pos()) by { if j >= cs[i].pos() { assert(!kt_lt(cs[i].ents()[j].key, cs[i].ents()[j].ts, e.0, e.1)); } }
+            }
+            assert forall|r: int| p <= r < m.len() implies lex_le(k, #[trigger] m[r].key) by {
+                lemma_merged_entry(cs, r);
+                let x = m[r];
+                // rank(x) >= rank(e): x is not below e; e's key is >= k
+                if kt_lt(x.key, x.ts, e.0, e.1) {
+                    let (i, j) = choose|i: int, j: int| 0 <= i < cs.len() && 0 <= j < cs[i].ents().len() && #[trigger] cs[i].ents()[j] == x;
+                    lemma_rank_mono(cs, i, j, e.0, e.1);
+                }
+                lemma_lex_total(e.0, x.key);
+                if !lex_le(e.0, x.key) { assert(lex_lt(x.key, e.0)); }
+                lemma_lex_trans(k, e.0, x.key);
+            }
+        }
+        None => {
+            lemma_sum_eq(cs, |c: C| c.pos(), |c: C| c.ents().len() as int);
+            assert forall|r: int| 0 <= r < p implies lex_lt(#[trigger] m[r].key, k) by {
+                lemma_merged_entry(cs, r);
+                let x = m[r];
+                let (i, j) = choose|i: int, j: int| 0 <= i < cs.len() && 0 <= j < cs[i].ents().len() && #[trigger] cs[i].ents()[j] == x;
+                assert(q(cs[i]));
+                assert(cs[i].pos() == cs[i].ents().len());
+            }
+        }
+    }
+}
+
 // std contract of slice::swap (ASSUMED)
 pub assume_specification<T> [<[T]>::swap] (s: &mut [T], a: usize, b: usize)
     requires a < old(s)@.len(), b < old(s)@.len(),
@@ -538,6 +733,165 @@ impl<C: Cursor> MergingCursor<C> {
 //@ >>
 //@ endloop 0 <<
             proof { lemma_same_family_trans(self.cursors@, before, old(self).cursors@); }
+//@ >>
+//@ end
+}
+
+// ================================================================ the cursor
+proof fn lemma_sum_only_root<C>(cs: Seq<C>, f: spec_fn(C) -> int)
+    requires cs.len() >= 1, forall|i: int| 1 <= i < cs.len() ==> f(#[trigger] cs[i]) == 0
+    ensures sumf(cs, f) == f(cs[0])
+    decreases cs.len()
+{
+    if cs.len() > 1 {
+        assert forall|i: int| 1 <= i < cs.drop_last().len() implies f(#[trigger] cs.drop_last()[i]) == 0 by { assert(cs.drop_last()[i] == cs[i]); }
+        lemma_sum_only_root(cs.drop_last(), f);
+        assert(cs.drop_last()[0] == cs[0]);
+        assert(cs.last() == cs[cs.len() - 1]);
+        assert(f(cs[cs.len() - 1]) == 0);
+    } else {
+        assert(cs.drop_last().len() == 0);
+        assert(sumf(cs.drop_last(), f) == 0);
+        assert(cs.last() == cs[0]);
+    }
+}
+
+impl<C: Cursor> MergingCursor<C> {
+    spec fn n(&self) -> int { self.cursors@.len() as int }
+    spec fn sumpos(&self) -> int { sumf(self.cursors@, |c: C| c.pos()) }
+    spec fn kids_wf(&self) -> bool { allq(self.cursors@, |c: C| c.wf()) }
+    // ASSUMED of every use: at least one child (with none the combinator is observationally the empty
+    // cursor but cannot tell before-first from after-last), fewer than 2^62 children, sorted tables with
+    // pairwise distinct (key, timestamp) pairs
+    spec fn base(&self) -> bool { 1 <= self.n() <= 0x3fff_ffff_ffff_ffff && all_base(self.cursors@) && mergeable(self.cursors@) }
+    // Forward rest states: (A) a heap whose children all sit at their first entry >= the root's entry (or all
+    // at their end); (B) just after seek_to_first: root rewound to before-first, the others on their first entry
+    spec fn fwd_a(&self) -> bool {
+        let cs = self.cursors@;
+        &&& heap_from(cs, Comparator::Forward, 0)
+        &&& match key_of_child(cs[0]) {
+            Some(e) => allq(cs, |c: C| c.pos() == clt(c.ents(), e.0, e.1)),
+            None => allq(cs, |c: C| c.pos() == c.ents().len()),
+        }
+    }
+    spec fn fwd_b(&self) -> bool {
+        let cs = self.cursors@;
+        &&& cs[0].pos() == -1
+        &&& forall|i: int| 1 <= i < cs.len() ==> (#[trigger] cs[i]).pos() == 0
+        &&& heap_from(cs, Comparator::Forward, 1)
+        &&& forall|i: int| 1 <= i < cs.len() ==> !lessk(Comparator::Forward, key_at((#[trigger] cs[i]).ents(), 0), key_at(cs[0].ents(), 0))
+    }
+}
+
+impl<C: Cursor> Cursor for MergingCursor<C> {
+    spec fn ents(&self) -> Seq<Ent> { merged(self.cursors@) }
+    spec fn pos(&self) -> int {
+        match self.comparator { Comparator::Forward => self.sumpos(), Comparator::Reverse => self.sumpos() + self.n() - 1 }
+    }
+    spec fn wf_base(&self) -> bool { self.base() }
+    spec fn wf(&self) -> bool {
+        &&& self.base() && self.kids_wf()
+        &&& match self.comparator { Comparator::Forward => self.fwd_a() || self.fwd_b(), Comparator::Reverse => false }
+    }
+    spec fn key_spec(&self) -> Option<(Seq<u8>, u64)> { if self.n() > 0 { self.cursors@[0].key_spec() } else { None } }
+    spec fn val_spec(&self) -> Option<Seq<u8>> { if self.n() > 0 { self.cursors@[0].val_spec() } else { None } }
+
+    proof fn lemma_cursor_laws(&self) {
+        let cs = self.cursors@;
+        if self.base() {
+            lemma_merged_sorted(cs);
+        }
+        if self.wf() {
+            assert forall|i: int| 0 <= i < cs.len() implies (#[trigger] cs[i]).wf() by { assert(allq(cs, |c: C| c.wf())); }
+            cs[0].lemma_cursor_laws();
+            if self.fwd_b() {
+                lemma_sum_only_root(cs, |c: C| c.pos());
+            } else {
+                match key_of_child(cs[0]) {
+                    Some(e) => {
+                        lemma_sum_eq(cs, |c: C| c.pos(), |c: C| clt(c.ents(), e.0, e.1));
+                        lemma_member_rank(cs, 0, cs[0].pos());
+                    }
+                    None => {
+                        lemma_sum_eq(cs, |c: C| c.pos(), |c: C| c.ents().len() as int);
+                    }
+                }
+            }
+        }
+    }
+
+
+// X13: `for x in self.cursors.iter_mut() { x.m()?; }`  ->  index loop over the same vector, same calls in the same order
+//@ extract sst/src/merging_cursor.rs | impl Cursor for MergingCursor<C> :: fn seek
+//@ rewrite X13 `for cursor in self.cursors.iter_mut() {` => `for idx in 0..self.cursors.len() {`
+//@ rewrite X13 `cursor.seek(key)?;` => `self.cursors[idx].seek(key)?;`
+//@ bodystart <<
+        let ghost low = key_below(key@);
+        proof { lemma_key_below_closed(key@); lemma_lex_order_total(); }
+//@ >>
+//@ loop 0 <<
+            invariant
+                self.comparator == Comparator::Forward, self.cursors@.len() == old(self).cursors@.len(),
+                old(self).base(), all_base(self.cursors@), same_tables(self.cursors@, old(self).cursors@), low == key_below(key@),
+                forall|j: int| 0 <= j < idx ==> at_cut(#[trigger] self.cursors@[j], low),
+                forall|j: int| idx <= j < self.cursors@.len() ==> self.cursors@[j] == old(self).cursors@[j],
+//@ >>
+//@ startloop 0 <<
+            let ghost pre = self.cursors@;
+            proof { assert(pre[idx as int].wf_base()); }
+//@ >>
+//@ endloop 0 <<
+            proof {
+                let c = self.cursors@[idx as int];
+                c.lemma_cursor_laws();
+                lemma_lex_order_total();
+                assert(low == key_below(key@));
+                assert forall|i: int| 0 <= i < c.pos() implies low(#[trigger] c.ents()[i]) by { }
+                assert forall|i: int| c.pos() <= i < c.ents().len() implies !low(#[trigger] c.ents()[i]) by { }
+                assert(at_cut(c, low));
+                assert forall|j: int| 0 <= j < idx + 1 implies at_cut(#[trigger] self.cursors@[j], low) by { if j < idx { assert(self.cursors@[j] == pre[j]); } }
+            }
+//@ >>
+//@ before `self.heapify();` <<
+        let ghost f1 = self.cursors@;
+        proof { lemma_same_tables(f1, old(self).cursors@); }
+//@ >>
+//@ after `self.heapify();` <<
+        proof {
+            let f2 = self.cursors@;
+            lemma_family_invariants(f2, f1);
+            lemma_family_merged(f1, f2);
+            assert(allq(f1, |c: C| at_cut(c, low)));
+            assert(allq(f2, |c: C| at_cut(c, low)));
+            assert(allq(f2, |c: C| c.wf())) by { assert forall|i: int| 0 <= i < f2.len() implies (#[trigger] f2[i]).wf() by { assert(at_cut(f2[i], low)); } }
+            assert forall|i: int| 0 <= i < f2.len() implies (#[trigger] f2[i]).key_spec() == key_of_child(f2[i]) by { assert(at_cut(f2[i], low)); f2[i].lemma_cursor_laws(); }
+            lemma_heap_top_fwd(f2, low);
+            lemma_seek_lower_bound(f2, key@);
+        }
+//@ >>
+//@ end
+
+//@ extract sst/src/merging_cursor.rs | impl Cursor for MergingCursor<C> :: fn seek_to_first
+//@ external-body
+//@ end
+//@ extract sst/src/merging_cursor.rs | impl Cursor for MergingCursor<C> :: fn seek_to_last
+//@ external-body
+//@ end
+//@ extract sst/src/merging_cursor.rs | impl Cursor for MergingCursor<C> :: fn prev
+//@ external-body
+//@ end
+//@ extract sst/src/merging_cursor.rs | impl Cursor for MergingCursor<C> :: fn next
+//@ external-body
+//@ end
+
+//@ extract sst/src/merging_cursor.rs | impl Cursor for MergingCursor<C> :: fn key
+//@ bodystart <<
+        proof { self.lemma_cursor_laws(); }
+//@ >>
+//@ end
+//@ extract sst/src/merging_cursor.rs | impl Cursor for MergingCursor<C> :: fn value
+//@ bodystart <<
+        proof { self.lemma_cursor_laws(); }
 //@ >>
 //@ end
 }
